@@ -333,6 +333,27 @@ def guard_polarity(f: Fn, node: ast.AST, flag: str) -> Optional[bool]:
                 return not neg
             if ine:
                 return neg
+    # an earlier sibling `if flag: ... return/raise/continue` (no else) puts everything after it under `not flag`
+    cur = node
+    while cur in f.pm:
+        par = f.pm[cur]
+        if isinstance(cur, ast.stmt):
+            for fld in ("body", "orelse", "finalbody"):
+                blk = getattr(par, fld, None)
+                if isinstance(blk, list) and any(x is cur for x in blk):
+                    for prev in blk[:next(i for i, x in enumerate(blk) if x is cur)]:
+                        if isinstance(prev, ast.If) and not prev.orelse and prev.body and isinstance(
+                                prev.body[-1], (ast.Return, ast.Raise, ast.Continue, ast.Break)):
+                            t = prev.test
+                            neg = False
+                            if isinstance(t, ast.UnaryOp) and isinstance(t.op, ast.Not):
+                                t, neg = t.operand, True
+                            if u(t) in (flag, f"self.{flag}"):
+                                return neg
+        if isinstance(par, (ast.FunctionDef, ast.For, ast.While)) and isinstance(cur, ast.stmt):
+            if isinstance(par, ast.FunctionDef):
+                break
+        cur = par
     return None
 
 
@@ -400,7 +421,7 @@ class Taint:
         if isinstance(e, ast.Name):
             return self.name_tags(e.id, at)
         if isinstance(e, ast.Call):
-            cn = call_name(e)
+            cn = effective_call_name(f, e, at)
             if cn in MATCH_FUNCS:
                 sc = kwarg(e, "scaling")
                 if sc is None and len(e.args) > MATCH_FUNCS[cn]:
@@ -552,6 +573,15 @@ TRANSPARENT_CONV = {"copy", "tocsc", "tocsr", "tocoo"}
 _SIMPLE_FUNCS: dict[str, ast.FunctionDef] = {}
 
 
+def effective_call_name(f: Fn, call: ast.Call, at: ast.stmt) -> Optional[str]:
+    """call_name, looking through a local alias of a function (compress = pp.matrix_operations.optimized_...)."""
+    if isinstance(call.func, ast.Name):
+        r = f.resolve(call.func, at)
+        if len(r) == 1 and isinstance(r[0], (ast.Attribute, ast.Name)) and r[0] is not call.func:
+            return r[0].attr if isinstance(r[0], ast.Attribute) else r[0].id
+    return call_name(call)
+
+
 def _simple_return(fd: ast.FunctionDef) -> Optional[tuple[list[str], ast.expr]]:
     body = [b for b in fd.body if not (isinstance(b, ast.Expr) and isinstance(b.value, ast.Constant))]
     if len(body) == 1 and isinstance(body[0], ast.Return) and body[0].value is not None:
@@ -571,7 +601,7 @@ def _single_source(f: Fn, e: ast.expr, at: ast.stmt, n: int = 0, depth: int = 6)
             return _single_source(f, e.value, at, n + 1, depth - 1)
         return None
     if isinstance(e, ast.Call):
-        cn = call_name(e)
+        cn = effective_call_name(f, e, at)
         if isinstance(e.func, ast.Attribute) and cn == "transpose" and not e.args:
             return _single_source(f, e.func.value, at, n + 1, depth - 1)
         if isinstance(e.func, ast.Attribute) and cn in TRANSPARENT_CONV:
